@@ -27,7 +27,8 @@
     non-ASCII code points is not modelled); number ↔ text conversion of the volume-info values
     (`f'{v:.10g}'`, `int()`, `float()`) is external: the model carries the value TOKENS;
   * old-format files (quad surfaces, old morph files, old colour tables) are never written by the
-    library and are refused by the model with `Err.unmodelled`.
+    library and are refused by the model with `Err.unmodelled`; `read_label` has no writer in the
+    library (no `write_label`) and is out of scope.
 -/
 import NibabelModel.Generated.C19
 namespace Nb.C19
